@@ -87,7 +87,12 @@ def spell(spec: dict, d: D) -> (dict, list):
             choices.append("omit-initial")
         if s["kind"] == "compound" and d.chance(30):
             ssp["explicit_type"] = True
-        if s.get("always") and d.chance(50):
+        if s.get("always") and len(s["always"]) >= 2 and d.chance(30):
+            # both eventless spellings in one state: the first k candidates under on[""] and the rest under
+            # `always` (the parser folds `always` into the "" bucket, behind what `on` already put there)
+            ssp["always_split"] = d.int(1, len(s["always"]) - 1)
+            choices.append("always-split")
+        elif s.get("always") and d.chance(50):
             ssp["always_as_on"] = True
             choices.append("always-as-on")
         if s.get("after") and d.chance(50):
